@@ -27,7 +27,8 @@
                               a `websocket` key, closures capturing (host_index, route_index)), the core dispatches,
                               the closure looks the route up again with Config::get_route and inner_request_handler /
                               inner_websocket_handler switch on RouteType.   Inv: CodeAnswer = Serve, and the named
-                              properties RouteOrderRespected, HostOrderRespected, RedirectExact, WsProxiedIffConfigured.
+                              properties RouteOrderRespected, HostOrderRespected, RedirectExact, WsProxiedIffConfigured,
+                              IndependentOfRest (AllServeProps = all of them with the sub-apps built once per state).
    Part 3  logging            LogMask(level) (events the monitor subscribes to), the severity cascade of
                               monitor_thread, the Logger's level gates; LogLevelMonotone, MaskExact, NoSilentDrop;
                               Emissions of every step of a session and the lines that reach the sinks.
@@ -52,9 +53,10 @@
      D8  a `file` route whose file does not exist panics in the worker (File::open(..).unwrap()): the client gets
          EOF without a response, the pool restarts the worker (C08); used here to exercise the Error mask.
 
-   Dev - deviations.  Genuine (the code as found):
+   Dev - deviations.  Genuine (the code as found; repaired in /repo by 68bdbad):
      PumpIgnoresEof     proxy_websocket treats read() = Ok(0) (the peer closed) like "no data yet": the loop never
-                        ends, the other side is never closed, the worker thread is never released.
+                        ends, the other side is never closed, the worker thread is never released (with `threads 2`
+                        two finished WebSocket sessions left every later request unanswered).
    Plausible bugs (sensitivity: each must violate an invariant; MC_ServerApp_bug_*.cfg):
      HostIndexOffByOne  init_app_routes(host, host_index) instead of host_index + 1
      RoutesReversed     routes registered back to front
@@ -110,7 +112,7 @@ Rank == [error |-> 0, warn |-> 1, info |-> 2, debug |-> 3]     \* #[derive(Parti
 RouteOK(r) == /\ r.type \in Types /\ r.tgt \in 0..3 /\ r.wt \in 0..3
               /\ (r.type = "websocket" => r.tgt = 0 /\ r.wt # 0)     \* parse_route: no file|directory|proxy|redirect
               /\ (r.type # "websocket" => r.tgt # 0)
-              /\ (r.tgt = MissingFile => r.type = "file")
+              /\ (r.type \in {"directory", "proxy"} => r.tgt \in 1..2)     \* file 3 = MissingFile; redirect targets 1..3
 
 \* D5: App::with_host panics on the pattern `*`
 Startup(cfg) == IF \E i \in 1..Len(cfg.hosts) : cfg.hosts[i].pat = <<STAR>> THEN "panic" ELSE "up"
